@@ -18,7 +18,7 @@ src: conf.c
 enforce: spifconf_parse_line
 replace: spiftool_chomp, spiftool_get_word, spiftool_get_pword, spifconf_shell_expand, spifconf_open_file, spiftool_temp_file, spifconf_register_context_state, spifconf_register_fstate, v_ctx_lookup
 backend: sat
-timeout: 600
+timeout: 300
 funcs: v_ctx_lookup, vhandler
 */
 #include "vprelude.h"
@@ -44,9 +44,9 @@ void harness(void)
 int w_c0, w_c1;
 void harness(void)
 {
-    FILE *fp = nondet_ptr();
+    static FILE vf;             /* file mode: a constant non-NULL stream (constant propagation prunes the argv-mode branches) */
     spif_charptr_t buff;
-    spifconf_parse_line(fp, buff);
+    spifconf_parse_line(&vf, buff);
     VERIF_CANARY();
 }
 #endif
